@@ -120,6 +120,16 @@ fn rename3(toks: &[Tok]) -> Vec<Tok> {
         .collect()
 }
 
+/// fractional number literals (2.5x, 2.5(x + 1))
+fn renum(toks: &[Tok]) -> Vec<Tok> {
+    toks.iter()
+        .map(|t| match t {
+            Tok::Num("2") => Tok::Num("2.5"),
+            o => o.clone(),
+        })
+        .collect()
+}
+
 fn well_typed(a: &Ast) -> Option<bool> {
     // Some(true) = boolean, Some(false) = numeric, None = ill-typed for the transformer
     match a {
@@ -163,6 +173,7 @@ fn check(toks: &[Tok], l: &mut Local) {
         ("keyword-prefixed-names", rename(toks), false, false),
         ("keyword-prefixed-names-2", rename2(toks), true, true),
         ("exponent-like-names", rename3(toks), false, true),
+        ("fractional-literals", renum(toks), false, true),
     ];
     for (vname, vt, alias, tight) in variants {
         let text = render_tokens(&vt, alias, tight);
@@ -239,7 +250,7 @@ pub fn run(mut run: Run) -> ! {
     crate::core::silence_panics();
     let max_len = if run.quick() { 7 } else { 8 };
     let seqs = Arc::new(gen_all(max_len, &["a", "b", "x"], &["2"]));
-    run.rule = format!("all well-formed token sequences of length <= {max_len} over operands {{a,b,x,2}}, 9 binary operators, prefix - and not, parentheses and implicit multiplication (number|parenthesis)+ variable?, generated by a grammar-directed DFS (complete over well-formed sequences); each is rendered with keywords, with symbolic aliases, with/without whitespace with identifiers that start with a keyword and with identifiers that look like a decimal exponent (e, e1, E2) glued to a number, in objective and constraint position; distinct = reference tree shapes");
+    run.rule = format!("all well-formed token sequences of length <= {max_len} over operands {{a,b,x,2}}, 9 binary operators, prefix - and not, parentheses and implicit multiplication (number|parenthesis)+ variable?, generated by a grammar-directed DFS (complete over well-formed sequences); each is rendered with keywords, with symbolic aliases, with/without whitespace with identifiers that start with a keyword and with identifiers that look like a decimal exponent (e, e1, E2) glued to a number, and with fractional literals, in objective and constraint position; distinct = reference tree shapes");
     run.assume("reference: precedence climbing with one prefix operator per leaf binding tightest, * / > + - > and > xor > or > {implies right, iff left} on one level, implicit multiplication forming one left-folded factor; shapes (not only values) are compared, which is stronger than the property");
     let s2 = seqs.clone();
     run.family(&format!("token-sequences-len<={max_len}"), seqs.len() as u64, move |i, l| {
